@@ -55,7 +55,8 @@ class C13:
     header = HEADER
     impl_script = 'impl_pred.py'
     rule = ("a class forest of 2-5 classes (decorated roots, decorated and UNDECORATED subclasses, 1-4 constructor fields with inherited "
-            "fields first), 4-8 objects of mixed classes whose fields hold 0/1/2, None or other objects; 1-2 top-level predicate-form "
+            "fields first, in 30 % of the classes also 1-2 attributes that are NOT constructor parameters - dataclass fields with "
+            "init=False - declared between them), 4-8 objects of mixed classes whose fields hold 0/1/2, None or other objects; 1-2 top-level predicate-form "
             "terms T(From(d), ...) over MIXED-TYPE domains with 0-2 positional arguments after the domain and any subset of the other "
             "fields by keyword; values are constants (falsy ones included), variables / attributes of variables declared earlier, or "
             "nested terms (depth <= 3); optional further ==/!= condition; in a fifth of the cases the instance registry is cleared before "
@@ -79,6 +80,9 @@ class C13:
             parent = None if c == 0 or rng.random() < 0.25 else rng.randrange(c)
             own = rng.randint(1, 2) if parent is None else rng.randint(0, 2)
             cs = dict(parent=parent, own=own, decorated=(parent is None or rng.random() < 0.5))
+            # attributes that are NOT constructor parameters (dataclass fields with init=False), declared before the own field
+            # of that index: they are not part of the signature the positional arguments are matched against
+            cs['hidden'] = sorted(rng.sample(range(own + 1), rng.randint(1, min(2, own + 1)))) if rng.random() < 0.3 else []
             classes.append(cs)
             if sig_len(classes, c) > 4:
                 cs['own'] = 0
@@ -195,6 +199,7 @@ class C13:
         d = collections.Counter()
         d['classes_%d' % len(case['classes'])] += 1
         d['undecorated_subclasses'] += sum(1 for c in case['classes'] if not c['decorated'])
+        d['classes_with_attributes_outside_the_signature'] += sum(1 for c in case['classes'] if c.get('hidden'))
         for t in case['terms']:
             for p in walk_terms(t):
                 d['terms'] += 1
